@@ -44,6 +44,10 @@ type TxStep struct {
 	FeePayer   string              `json:"fee_payer,omitempty"`
 	Gas        uint64              `json:"gas,omitempty"`
 	Memo       string              `json:"memo,omitempty"`
+	// TipFrom / TipAmount set the transaction's optional AuthInfo.tip (an account index + 1 and
+	// coins): legal in this SDK version, ignored by a chain without a tip post-handler.
+	TipFrom   int    `json:"tip_from,omitempty"`
+	TipAmount string `json:"tip_amount,omitempty"`
 	// Exec wraps Msgs into one authz.MsgExec whose grantee is account Exec-1 (0 = no wrapping).
 	Exec int `json:"exec,omitempty"`
 	// Group wraps Msgs into one x/group MsgSubmitProposal (exec = try) of the harness's group
@@ -473,7 +477,12 @@ func (w *World) applyTx(ts *TxStep) error {
 		_, seq, _ := w.C.AccountInfo(ctx, a.Addr)
 		obs.SeqPre = append(obs.SeqPre, seq)
 	}
-	raw, err := w.C.BuildTx(simnet.TxSpec{Msgs: obs.Outer, SignedMsgs: signedOuter, Signers: ts.Signers, Fee: parseCoins(ts.Fee),
+	tipFrom := ""
+	if ts.TipFrom > 0 && ts.TipFrom <= len(w.Accts) {
+		tipFrom = w.Accts[ts.TipFrom-1].Bech
+		w.Label("tx with a tip field")
+	}
+	raw, err := w.C.BuildTx(simnet.TxSpec{Msgs: obs.Outer, SignedMsgs: signedOuter, Signers: ts.Signers, Fee: parseCoins(ts.Fee), TipFrom: tipFrom, TipAmount: parseCoins(ts.TipAmount),
 		FeePayer: ts.FeePayer, Gas: ts.Gas, Memo: ts.Memo})
 	if err != nil {
 		// The client-side tx builder refused (e.g. GetSigners panics on a malformed address):
